@@ -117,7 +117,11 @@ func nickCollisionHandler(c *Client, e Event) {
 		// Build on the nickname the server just rejected, so that repeated
 		// collisions try nick_, nick__, and so on.
 		nick := current
-		if len(e.Params) >= 2 && IsValidNick(e.Params[1]) {
+		// Not every network limits nicknames to what IsValidNick accepts, so
+		// only rule out what cannot be the rejected nickname: a channel (437
+		// is also sent for channels) or the text of a numeric that carries no
+		// nickname at all.
+		if len(e.Params) >= 2 && e.Params[1] != "" && !strings.ContainsAny(e.Params[1], " ,") && !IsValidChannel(e.Params[1]) {
 			nick = e.Params[1]
 		}
 
